@@ -799,9 +799,28 @@ func (k *simk) exec(a *kactor, req *sysreq, fault *kfault) (ret uintptr, errno s
 		if e == nil {
 			return done(-1, syscall.EBADF)
 		}
-		if A[1] == syscall.F_SETFD {
+		switch A[1] {
+		case syscall.F_SETFD:
 			e.cloexec = A[2]&syscall.FD_CLOEXEC != 0
 			return done(0, 0)
+		case syscall.F_GETFD:
+			if e.cloexec {
+				return done(syscall.FD_CLOEXEC, 0)
+			}
+			return done(0, 0)
+		case syscall.F_GETFL:
+			return done(syscall.O_RDWR, 0)
+		case syscall.F_DUPFD, syscall.F_DUPFD_CLOEXEC:
+			// the lowest free number at or above the argument, as the kernel chooses it
+			n := int(A[2])
+			if n < 0 || n >= 20000 {
+				return done(-1, syscall.EINVAL)
+			}
+			for p.fds[n] != nil {
+				n++
+			}
+			p.install(n, e.f, A[1] == syscall.F_DUPFD_CLOEXEC)
+			return done(int64(n), 0)
 		}
 		return done(-1, syscall.EINVAL)
 	case syscall.SYS_SETSID:
